@@ -6,7 +6,7 @@ import json
 import os
 import random
 
-from ..core import Result, out_bytes, cli, REPO, STEP_BUDGET
+from ..core import crashed, Result, out_bytes, cli, REPO, STEP_BUDGET
 from .. import gen, ser
 from ..val import clone, strings_of
 
@@ -380,7 +380,7 @@ def judge_cli(res, r, what, fmt=None, must_fail=False, must_ok=False, detail=Non
     if r.rc == 97 or b'VERIF-STEP-BUDGET' in err:
         res.violate('hang', '%s exceeded the step budget' % what, stderr=err[-300:].decode('utf-8', 'replace'), **detail)
         return False
-    if r.rc not in (0, 1) or any(m in err for m in BAD_MARKS):
+    if crashed(r.rc, err):
         res.violate('crash', '%s died: rc=%s %s' % (what, r.rc, err[-400:].decode('utf-8', 'replace')), **detail)
         return False
     if r.rc != 0:
@@ -697,7 +697,7 @@ def check_fault(ctx, case, res):
         res.labels.add('fault:' + t)
         if p.returncode == 0:
             return res.violate('fault', '%s reported success although its output could not be written (ENOSPC)' % t)
-        if p.returncode != 1 or not p.stderr.strip() or any(m in p.stderr for m in BAD_MARKS):
+        if crashed(p.returncode, p.stderr) or not p.stderr.strip():
             return res.violate('fault', '%s: rc=%s stderr=%r on a full output device' % (t, p.returncode, p.stderr[-200:]))
         res.ev('fault_runs_judged')
     finally:
